@@ -220,6 +220,20 @@ pub struct UserModel<'a> {
 /// sheet occupies after the worksheet at `from` is moved to `to`. This lets the
 /// selection follow a sheet by identity across a reorder instead of pointing at
 /// whichever sheet lands in the old slot.
+/// Given the index of the currently selected sheet, returns the index of the
+/// sheet to select after the worksheet at `deleted` is removed from a workbook
+/// that had `sheet_count` sheets: the selection follows its sheet, and if the
+/// selected sheet is the one deleted the next one (or the new last) is selected.
+pub(crate) fn selected_sheet_after_delete(selected: u32, deleted: u32, sheet_count: u32) -> u32 {
+    if selected > deleted {
+        return selected - 1;
+    }
+    if selected == deleted && selected > 0 && selected + 1 >= sheet_count {
+        return selected - 1;
+    }
+    selected
+}
+
 pub(crate) fn selected_sheet_after_move(selected: u32, from: u32, to: u32) -> u32 {
     if selected == from {
         return to;
@@ -621,22 +635,17 @@ impl<'a> UserModel<'a> {
     /// See also:
     /// * [Model::delete_sheet]
     pub fn delete_sheet(&mut self, sheet: u32) -> Result<(), String> {
-        let worksheet = self.model.workbook.worksheet(sheet)?;
-
-        self.push_diff_list(vec![Diff::DeleteSheet {
-            sheet,
-            old_data: Box::new(worksheet.clone()),
-        }]);
-
+        let old_data = Box::new(self.model.workbook.worksheet(sheet)?.clone());
         let sheet_count = self.model.workbook.worksheets.len() as u32;
-        // If we are deleting the last sheet we need to change the selected sheet
-        if sheet == sheet_count - 1 && sheet_count > 1 {
-            if let Some(view) = self.model.workbook.views.get_mut(&self.model.view_id) {
-                view.sheet = sheet_count - 2;
-            };
-        }
-
         self.model.delete_sheet(sheet)?;
+
+        // The selection follows its sheet; if the selected sheet itself was
+        // deleted the sheet that takes its place (or the new last one) is selected
+        if let Some(view) = self.model.workbook.views.get_mut(&self.model.view_id) {
+            view.sheet = selected_sheet_after_delete(view.sheet, sheet, sheet_count);
+        };
+
+        self.push_diff_list(vec![Diff::DeleteSheet { sheet, old_data }]);
         Ok(())
     }
 
